@@ -5,6 +5,8 @@ MODS = ['parso/normalizer.py', 'parso/python/errors.py', 'parso/python/prefix.py
 
 
 def check(ctx, rep):
+    from ..rules import shape as _shape
+    _shape.gr_10b(ctx, rep, ['parso/python/errors.py'])
     from ..rules import shape
     _n = shape.gr_10(ctx, rep, ['parso/python/errors.py'])
     rep.minimum('GR-10', 4)
